@@ -447,8 +447,8 @@ func plans() map[string]*propertyPlan {
 			assumptions: []string{"deviate add of a property that already exists (other than default) and replace of an absent one are not generated: the RFC forbids them and the property does not say what must happen", "leaf-list deviate delete default is not generated (goyang documents it as unsupported)", "must/unique deviations are outside the claim"},
 			minObserved: map[string]int64{"value_and_frame_cases": 1000, "expected_error_cases": 1000},
 			nontrivial:  "nontrivial", evaluations: "cases",
-			quick:    []spec{{family: "deviate", cases: 20000, cpuS: 900, asKB: 8 << 20, wallS: 1200}},
-			thorough: []spec{{family: "deviate", cases: 300000, cpuS: 7200, asKB: 8 << 20, wallS: 9000}},
+			quick:    []spec{{family: "deviate", cases: 20000, cpuS: 900, asKB: 8 << 20, wallS: 1200}, {family: "latefaults", cases: 2000, cpuS: 900, asKB: 8 << 20, wallS: 1200}},
+			thorough: []spec{{family: "deviate", cases: 300000, cpuS: 7200, asKB: 8 << 20, wallS: 9000}, {family: "latefaults", cases: 26000, cpuS: 7200, asKB: 8 << 20, wallS: 9000}},
 		},
 		"C11": {
 			level:       "exploration",
